@@ -289,7 +289,7 @@ impl Prop for C01 {
         }
         // --- values and DEFAULTs: one representative per (notation, feature, route)
         let mut seen = std::collections::BTreeSet::new();
-        for c in c07::C07.enumerate(Tier::Quick, seed) {
+        for c in c07::cases(Tier::Quick) {
             if seen.insert((c.notation.clone(), c.feature.clone(), c.route.clone())) {
                 push(format!("value:{}|{}|{}", c.notation, c.feature, c.route), vec![c07::text(&c)], if c.notation.len() % 3 == 0 { Cfg { no_std: true, ..d.clone() } } else { d.clone() });
             }
